@@ -15,7 +15,7 @@ done
 for d in seeded/*/; do
   n=$(basename $d); p=${n%%-*}
   case " $props " in *" $p "*) ;; *) continue;; esac
-  f=$d/patch.diff; [ -f $d/patch_rebased.diff ] && f=$d/patch_rebased.diff
+  f=$d/patch.diff; [ -f $d/patch_rebased.diff ] && f=$d/patch_rebased.diff; [ -f $d/patch_on_prefix_tree.diff ] && f=$d/patch_on_prefix_tree.diff
   out=$(VERIF_PROCS=${VERIF_PROCS:-6} MUT_LINES=40 tools/mut.sh "$f" "$p" quick 2>&1)
   ex=$(echo "$out" | grep -o 'exit=[0-9]*' | tail -1)
   key=$(echo "$out" | grep -o 'key=[^ ]*' | head -1)
